@@ -9,7 +9,7 @@
 From Coq Require Import String Ascii List Bool ZArith.
 From LC Require Import Common NumDefs XmlDefs EntTreeDefs PrintDefs LoadDefs RoundtripSpec XmlTextProofs
      RoundtripReadProofs RoundtripLoadProofs RoundtripFlatProofs RoundtripEncProofs RoundtripOrderProofs
-     RoundtripStableProofs RoundtripWitness.
+     RoundtripStableProofs RoundtripMapsProofs RoundtripPathProofs RoundtripConnProofs RoundtripConnTopProofs RoundtripWitness.
 From LCGen Require RuleTable.
 Import ListNotations.
 Local Open Scope string_scope.
@@ -139,6 +139,62 @@ Theorem C02_imported_units_covered : forall m u i, In u (m_units m) -> u_src u =
 Proof. exact RoundtripOrderProofs.imported_units_covered. Qed.
 Print Assumptions C02_imported_units_covered.
 
+(** * stage 4 (connections), what is proved *)
+
+(** buildMaps, for EVERY printable model (any component tree, any order of the equivalences): the collected variable
+    pairs are the equivalence edges, each exactly once with its ids (as multisets of oriented keys), every entry comes
+    from an edge, and no two entries join the same two components in opposite directions *)
+Theorem C02_build_maps_complete : forall E m, printable E true m ->
+  Permutation.Permutation (flat_map okey (build_maps m)) (flat_map ekey (m_eqv m))
+  /\ (forall x, In x (build_maps m) -> exists e, In e (m_eqv m) /\ touches (me_v1 x) e = true /\ x = mk_entry (me_v1 x) e)
+  /\ (forall x y, In x (build_maps m) -> In y (build_maps m) -> ~ (fst (me_v1 x) = fst (me_v2 y) /\ fst (me_v2 x) = fst (me_v1 y))).
+Proof. exact RoundtripConnTopProofs.build_maps_printable. Qed.
+Print Assumptions C02_build_maps_complete.
+
+(** the printer's listing of components is exactly what index paths resolve, each path once; and
+    component(name, searchEncapsulated) finds THE component of a name when names are unique *)
+Theorem C02_all_comps_comp_at : forall cs p c, In (p, c) (all_comps cs) <-> comp_at cs p = Some c.
+Proof. exact RoundtripPathProofs.all_comps_comp_at. Qed.
+Print Assumptions C02_all_comps_comp_at.
+
+Theorem C02_find_comp_unique : forall q G d, NoDup (names (flat_map dfs G)) -> comp_at G q = Some d -> find_comp (cname d) G = Some q.
+Proof. exact RoundtripPathProofs.find_comp_unique. Qed.
+Print Assumptions C02_find_comp_unique.
+
+(** loadConnection on ONE printed connection element (the invariant step of the fold over connections): in a forest G
+    where every component of the printed model is found again by name, it adds exactly the group's equivalences (resolved
+    variable positions, mapping ids, the group's connection id), records the component pair, raises no issue *)
+Theorem C02_load_connection_group : forall E cs G,
+  NoDup (map (fun pc => cname (snd pc)) (all_comps cs)) -> NoDup (names (flat_map dfs G)) ->
+  (forall p c, comp_at cs p = Some c -> exists q, comp_at G q = Some (canon_comp E c) /\ names_along G q = names_along cs p) ->
+  (forall p c, comp_at cs p = Some c ->
+     nonempty (cname c) = true /\ is_import_comp c = false /\ NoDup (map v_name (c_vars (shell c)))
+     /\ (forall x, In x (c_vars (shell c)) -> nonempty (v_name x) = true)) ->
+  forall x rest eqs used is,
+  Forall (entry_ok cs) (x :: rest) -> (forall y, In y rest -> me_pair y = me_pair x) -> NoDup (map (np_of cs) (x :: rest)) ->
+  ~ In (sort2 (comp_name_at cs (fst (me_v1 x))) (comp_name_at cs (fst (me_v2 x)))) used ->
+  load_connection true (st_of G eqs used is) (render_group ident cs (x :: rest))
+  = st_of G (add_list eqs (map (Re cs G (gcid (x :: rest))) (x :: rest)))
+          (used ++ [(comp_name_at cs (fst (me_v1 x)), comp_name_at cs (fst (me_v2 x)))]) is.
+Proof. exact RoundtripConnProofs.load_group. Qed.
+Print Assumptions C02_load_connection_group.
+
+(** the whole round trip with connections and any encapsulation hierarchy (no imports), CONDITIONAL on [groups_ok]:
+    the printed groups are well formed (entries exist, one ordered component pair per group, distinct variable-name
+    pairs inside a group, no earlier connection between the same two components in either direction).  The re-parsed
+    model is canon m up to [enc_order], its equivalences are the groups' entries at their resolved positions, no issue. *)
+Theorem C02_roundtrip_connections_partial : forall E m, printable E true m -> no_imports m = true ->
+  let cs := m_comps m in
+  let G := map (canon_comp E) (enc_order cs) in
+  let groups := conn_groups (build_maps m) [] in
+  groups_ok cs [] groups ->
+  print_model E true m = Some (print_tree E m)
+  /\ load E true true (print_tree E m)
+     = ({| m_name := m_name m; m_id := m_id m; m_encid := m_encid m; m_units := map (canon_units E) (m_units m);
+           m_comps := G; m_eqv := add_list [] (flat_map (fun g => map (Re cs G (gcid g)) g) groups) |}, []).
+Proof. exact RoundtripConnTopProofs.roundtrip_conn_partial. Qed.
+Print Assumptions C02_roundtrip_connections_partial.
+
 (** the loader, element by element (used by every stage) *)
 Theorem C02_load_unit : forall E d, unitdef_ok E true d = true -> load_unit E (print_unit E ident d) = (canon_unitdef E d, []).
 Proof. exact RoundtripLoadProofs.load_print_unit. Qed.
@@ -186,14 +242,20 @@ Theorem C02_rules_in_table : forallb (fun r => existsb (String.eqb r) LCGen.Rule
 Proof. vm_compute. reflexivity. Qed.
 Print Assumptions C02_rules_in_table.
 
-(* NOT PROVED (stages 4 and 5 of the plan: connections, imports; see design_notes/C02.md):
-   roundtrip : forall E fx m, printable E true m ->
-     exists m', load E fx true (print_tree E m) = (m', []) /\ content_eq m' (canon E m)
-   for models WITH connections or imports (C02_roundtrip_partial is this statement under the two extra hypotheses
-   no_imports m and no_connections m).  What IS proved for them: C02_print_nonempty (the document exists and is the
-   intended tree), C02_no_namespace_issues, the element-level loader theorems, the subtree theorem of loadComponentRef;
-   one closed instance with every feature (C02_full_model_round_trips); and the instance of the statement is CHECKED
-   on every generated model by the correspondence run (the extracted printableb / load / canon are evaluated and
-   compared up to child order: "model instance of the round-trip theorem").
-   second_print_stable is proved for flat models (C02_second_print_stable_flat); beyond, it is checked (second print /
-   second parse compared on every case). *)
+(* NOT PROVED (see design_notes/C02.md):
+   (4) roundtrip with CONNECTIONS, unconditionally:
+         forall E m, printable E true m -> no_imports m = true ->
+           exists m', load E true true (print_tree E m) = (m', []) /\ content_eq m' (canon E m)
+       What is proved: C02_roundtrip_connections_partial gives the exact re-parsed model under the hypothesis
+       [groups_ok cs [] (conn_groups (build_maps m) [])]; C02_build_maps_complete, C02_connections_complete / uniform /
+       distinct, C02_all_comps_comp_at, C02_find_comp_unique supply every ingredient of that hypothesis.  Missing (time):
+       (a) the derivation of groups_ok from them (distinct variable-name pairs inside a group from the distinctness of
+       edges + unique variable names; "no earlier pair" from C02_connections_distinct + no-reversed-pairs + unique
+       component names); (b) add_list [] l = l from the distinctness of the resolved edges (RoundtripConnProofs.
+       add_list_distinct is proved; its premise is not derived); (c) group connection id = each entry's id from
+       one_cid_per_pair; (d) the Permutation chain to content_eq.  No new conjunct of [printable] was needed so far.
+   (5) roundtrip with IMPORTS (import-source renumbering, imported entities listed first, placeholder variables): not
+       attempted beyond C02_print_nonempty, C02_import_sources_distinct, C02_imported_units_covered.
+   second_print_stable beyond flat models: not proved (C02_second_print_stable_flat is).
+   All three statements are CHECKED on every generated model by the correspondence run (extracted printableb / load /
+   canon compared up to child order; second print and second parse compared with the model and with the first). *)
